@@ -10,6 +10,8 @@ def check(I, fn, vals, outs, fr, e):
     p = fn["path"]
     if p.endswith("strict::graph::converse"):
         converse_spec(I, fn, vals, outs, fr, e)
+    if p.endswith("strict::graph::node_adjacency_from_incidence"):
+        incidence_roles(I, fn, vals, outs, fr, e)
 
 
 def _deref(I, st, v):
@@ -43,3 +45,41 @@ def converse_spec(I, fn, vals, outs, fr, e):
         I.oblige("ENS", fr, node, "converse: the x of every pair (x, q), grouped by q in stable order",
                  f"values ≡ segment-numbers re-indexed along argsort(r.values): got {show_term(got_vals)[:200]}", ok2,
                  "callee-spec" if ok2 else "", detail="" if ok2 else I.describe(st))
+
+
+def _value_leaves(v, out):
+    import spec_checks
+    if isinstance(v, VSeq):
+        spec_checks.leaves_of(v.t, out)
+    elif isinstance(v, VNat):
+        spec_checks.leaves_of(v.p, out)
+    elif isinstance(v, VRec):
+        for x in v.f.values():
+            _value_leaves(x, out)
+    elif isinstance(v, VTup):
+        for x in v.items:
+            _value_leaves(x, out)
+
+
+def _role(name):
+    parts = name.split(".")
+    return {"s": "source", "t": "target"}.get(next((q for q in parts[1:] if q in ("s", "t")), None))
+
+
+def incidence_roles(I, fn, vals, outs, fr, e):
+    """node_adjacency_from_incidence(s, t): `adjacency(w)` = the nodes reachable in ONE STEP FROM w (doc comment), i.e.
+    through a hyperedge that has w among its sources: the first argument is source incidence, the second target
+    incidence.  Decided by provenance: which incidence fields (`.s.` / `.t.`) of the entry's arguments each argument is
+    built from; an argument built from neither is not judged."""
+    for (st, v, c) in outs[:1]:
+        for ix, want in ((0, "source"), (1, "target")):
+            leaves = set()
+            _value_leaves(_deref(I, st, vals[ix]), leaves)
+            roles = {_role(x) for x in leaves if isinstance(x, str)} - {None}
+            if not roles:
+                continue
+            ok = roles == {want}
+            I.oblige("ENS", fr, {"sp": e.get("sp", fn["sp"])},
+                     f"node adjacency: argument {ix + 1} is the {want} incidence",
+                     f"built from {want} incidence fields only: got fields of roles {sorted(roles)}", ok,
+                     "callee-spec" if ok else "", detail="" if ok else I.describe(st))
